@@ -375,7 +375,7 @@ class Stats:
             self.mx[k] = v
 
 
-def check_segment(seg, meta, st, fails, line):
+def check_segment(seg, meta, st, fails, line, xc=None):
     """contracts on every recorded answer + the property's own predicate on the real result.
     Appends (key, what, info) to fails."""
     o = meta["opts"]
@@ -406,6 +406,20 @@ def check_segment(seg, meta, st, fails, line):
             rem, sub = cur_adv[0], r[0]
             st.inc("driver_answers")
             arc = arcs[k_adv][2] if k_adv < len(arcs) else None
+            if xc and k_adv < len(xc) and xc[k_adv]:
+                # find_next_chord left its loop unsuccessfully (max_nsteps spent) and the driver
+                # went on as if the chord criterion had been met
+                st.inc("driver_chord_search_exhausted")
+                st.inc("driver_exhausted_at_max_nsteps_%d" % o[11])
+                if not tainted:
+                    fails.append(("driver-max-nsteps-exhausted",
+                                  "FieldDriver::find_next_chord ran out of max_nsteps; advance() "
+                                  "continues as if the sagitta criterion held (and, without a "
+                                  "following accurate_advance, returns the un-shrunk trial's state "
+                                  "with the shrunk step length)",
+                                  {"requested": rem, "returned_step": sub,
+                                   "arc_of_returned_state": arc, "max_nsteps": o[11]}))
+                tainted = True
             k_adv += 1
             if arc is None:
                 st.inc("driver_answers_arc_unknown")
@@ -414,13 +428,14 @@ def check_segment(seg, meta, st, fails, line):
                 # the step was scaled once more AFTER the last stepper call, so the returned
                 # `step` is shorter than the arc actually integrated into the returned `state`
                 st.inc("driver_state_step_mismatch")
-                st.inc("driver_state_step_mismatch_at_max_nsteps_%d" % o[11])
+                st.inc("driver_exhausted_at_max_nsteps_%d" % o[11])
                 st.max("max_arc_over_reported_step", arc / sub if sub > 0 else float("inf"))
                 tainted = True
-                fails.append(("driver-nsteps-exhausted-state-step-mismatch",
+                fails.append(("driver-max-nsteps-exhausted",
                               "FieldDriver::advance returned a state integrated over a longer arc "
                               "than the step length it reports (max_nsteps exhausted in "
-                              "find_next_chord / one_good_step)",
+                              "find_next_chord / one_good_step: the step is scaled once more after "
+                              "the last stepper call)",
                               {"requested": rem, "returned_step": sub, "arc_of_returned_state": arc,
                                "max_nsteps": o[11]}))
             if tainted:
@@ -617,7 +632,7 @@ def direct_ops(ctx, exe, n):
     kinds = {}
     for i, l in enumerate(hl):
         a = ho[i] if i < len(ho) else "<missing>"
-        b = mo[i] if i < len(mo) else "<missing>"
+        b = (mo[i] if i < len(mo) else "<missing>").replace(" xc ", " ")
         k = (l.split() or ["empty"])[0]
         kinds[k] = kinds.get(k, 0) + 1
         if nan_norm(a) != nan_norm(b):
@@ -704,13 +719,15 @@ def run(ctx):
                 corpus += [l.strip() for l in open(vlib.os.path.join(cdir, fn)) if l.startswith("run ")]
     lines = corpus + [c[0] for c in cases]
     metas = [meta_of_line(l) for l in corpus] + [c[1] for c in cases]
+    t_h = vlib.time.time()
     _, out = vlib.run_lines([exe], lines, timeout=3000)
+    t_h = vlib.time.time() - t_h
     st = Stats()
     status = {}
     mlines, expect, owner = [], [], []
     fails = []           # (case index, key, what, info)
     distinct = set()
-    branch_mix = {"accept": 0, "boundary_retry_or_shorten": 0, "commit_boundary": 0, "bump": 0}
+    todo = []            # (case index, segment, index of its drvseq line in mlines or None)
     for i, l in enumerate(lines):
         o = out[i] if i < len(out) else "<missing>"
         if not o.startswith("B "):
@@ -723,12 +740,11 @@ def run(ctx):
             continue
         status["traced"] = status.get("traced", 0) + 1
         for seg in segs:
-            f = []
-            check_segment(seg, metas[i], st, f, l)
-            fails += [(i,) + x for x in f]
             if seg["exception"]:
+                todo.append((i, seg, None))
                 continue
             a, b, c, d = seg_lines(seg, metas[i]["opts"])
+            todo.append((i, seg, len(mlines) + 1))
             mlines += [a, c]
             expect += [b, d]
             owner += [i, i]
@@ -736,10 +752,15 @@ def run(ctx):
             if nev > 1 or any(t == "->mtb" for t, _ in seg["events"]):
                 distinct.add(a)
     diverged = []
+    mo = []
     if ps["model_ok"]:
+        t_m = vlib.time.time()
         _, mo = vlib.run_lines([vlib.model_exe("C08")], mlines, timeout=3000)
+        ctx.coverage["model_replay_s"] = round(vlib.time.time() - t_m, 1)
         for k, e in enumerate(expect):
             m = mo[k] if k < len(mo) else "<missing>"
+            if mlines[k].startswith("drvseq"):
+                m = m.replace(" xc ", " ")          # diagnostic token of the model driver
             if m != e and nan_norm(m) != nan_norm(e):
                 mt, et = m.split(), e.split()
                 j = next((j for j in range(min(len(mt), len(et))) if mt[j] != et[j]),
@@ -755,6 +776,14 @@ def run(ctx):
         n_direct, dkinds = 0, {}
     if diverged:
         broken.append(f"correspondence: model and implementation differ on {len(diverged)} replays/ops")
+    # impl-side oracle and contracts on every recorded propagation
+    for i, seg, k in todo:
+        xc = None
+        if k is not None and k < len(mo):
+            xc = [(" xc " in (" " + g)) for g in mo[k].split("adv ")[1:]]
+        f = []
+        check_segment(seg, metas[i], st, f, lines[i], xc)
+        fails += [(i,) + x for x in f]
     # ---- findings of the impl-side oracle, one violation per key with the first input as replay
     seen = {}
     for i, key, what, info in fails:
@@ -805,6 +834,7 @@ def run(ctx):
                 "distinct recorded propagations with more than one loop iteration or a boundary "
                 "landing",
         "harness_status": dict(sorted(status.items())), "propagations": n_seg,
+        "harness_run_s": round(t_h, 1), "trace_bytes": sum(len(o) for o in out),
         "stats": dict(sorted(st.n.items())),
         "max": {k: float("%.6g" % v) for k, v in sorted(st.mx.items())},
         "direct_op_mix": dict(sorted(dkinds.items())), "replays": len(mlines),
